@@ -50,3 +50,266 @@ def attr_obligations(ctx, rule, engine, func, exempt=()):
                      f"attribute/method '{attr}' is used on a value that can be {sorted(base.types)[:6]} but "
                      f"{missing} has no such attribute: AttributeError at run time")
     return n
+
+
+def resolve_static_call(model, func, call):
+    """The Func a call statically names: f(..) in func's module (or imported from a sibling module), self.m(..)
+    along the MRO of func's class, Class.m(..).  None when it is anything else."""
+    fn = call.func
+    if isinstance(fn, ast.Name):
+        if fn.id in func.module.funcs:
+            return func.module.funcs[fn.id]
+        origin = func.module.imports.get(fn.id, "")
+        if origin.startswith("ckl."):
+            parts = origin.split(".")
+            mod = model.modules.get(parts[1]) if len(parts) == 3 else None
+            if mod is not None and parts[2] in mod.funcs:
+                return mod.funcs[parts[2]]
+        return None
+    if isinstance(fn, ast.Attribute) and isinstance(fn.value, ast.Name):
+        if fn.value.id in ("self", "cls") and func.cls is not None:
+            return model.find_method(func.cls, fn.attr)
+        if fn.value.id in model.classes:
+            return model.find_method(model.classes[fn.value.id], fn.attr)
+    return None
+
+
+def bounds_summaries(model, func, **kw):
+    """summaries= callback for intervals.Bounds: one-level summaries of statically named helpers."""
+    from ..intervals import summarise
+    cache = {}
+
+    def get(call):
+        callee = resolve_static_call(model, func, call)
+        if callee is None or callee is func:
+            return None
+        if callee.qual not in cache:
+            cache[callee.qual] = None     # recursion guard
+            cache[callee.qual] = summarise(callee.node, **kw)
+        return cache[callee.qual]
+
+    return get
+
+
+# ---------------------------------------------------------------------------------------------------
+# operator tables of the expression parser (shared by C02 and C14)
+def module_tables(module):
+    """module-level NAME = {str: str} dictionaries and NAME = [str, ..] sequences"""
+    dicts, seqs = {}, {}
+    for name, v in module.globals_assigned.items():
+        if isinstance(v, ast.Dict) and v.keys and all(
+                isinstance(k, ast.Constant) and isinstance(k.value, str) for k in v.keys) and all(
+                isinstance(x, ast.Constant) and isinstance(x.value, str) for x in v.values):
+            dicts[name] = {k.value: x.value for k, x in zip(v.keys, v.values)}
+            seqs[name] = [k.value for k in v.keys]
+        elif isinstance(v, (ast.List, ast.Tuple, ast.Set)) and v.elts and all(
+                isinstance(x, ast.Constant) and isinstance(x.value, str) for x in v.elts):
+            seqs[name] = [x.value for x in v.elts]
+    return dicts, seqs
+
+
+def strings_of(e, seqs, local=None):
+    """strings an expression denotes (literal sequence, local or module-level sequence/dict, list(T), T.keys())"""
+    if isinstance(e, (ast.List, ast.Tuple, ast.Set)):
+        if e.elts and all(isinstance(x, ast.Constant) and isinstance(x.value, str) for x in e.elts):
+            return [x.value for x in e.elts]
+        return None
+    if isinstance(e, ast.Name):
+        if local and e.id in local:
+            return local[e.id]
+        return seqs.get(e.id)
+    if isinstance(e, ast.Call) and isinstance(e.func, ast.Name) and e.func.id in ("list", "tuple", "sorted", "set",
+                                                                                  "frozenset") and len(e.args) == 1:
+        return strings_of(e.args[0], seqs, local)
+    if isinstance(e, ast.Call) and isinstance(e.func, ast.Attribute) and e.func.attr == "keys" and not e.args:
+        return strings_of(e.func.value, seqs, local)
+    return None
+
+
+def tokens_tested(model, func, depth=1):
+    """Literal tokens a parser function looks for: matchIf / peekn / match constants, peekOne lists, membership
+    tests against literal or table sequences, keys of the module tables it subscripts; helpers taking the lexer are
+    followed one level."""
+    dicts, seqs = module_tables(func.module)
+    local = {}
+    for n in ast.walk(func.node):
+        if isinstance(n, ast.Assign) and len(n.targets) == 1 and isinstance(n.targets[0], ast.Name):
+            v = strings_of(n.value, seqs)
+            if v is not None:
+                local[n.targets[0].id] = v
+    out = set()
+    for n in ast.walk(func.node):
+        if isinstance(n, ast.Call) and isinstance(n.func, ast.Attribute) and norm(n.func.value) == "lexer":
+            a = n.args
+            if n.func.attr in ("matchIf", "match") and a and isinstance(a[0], ast.Constant):
+                out.add(a[0].value)
+            elif n.func.attr == "peekn" and len(a) >= 2 and isinstance(a[1], ast.Constant):
+                out.add(a[1].value)
+            elif n.func.attr == "peekOne" and len(a) >= 2:
+                out |= set(strings_of(a[1], seqs, local) or ())
+        elif isinstance(n, ast.Compare) and len(n.ops) == 1 and isinstance(n.ops[0], (ast.In, ast.NotIn)) \
+                and ".value" in norm(n.left):
+            out |= set(strings_of(n.comparators[0], seqs, local) or ())
+        elif isinstance(n, ast.Subscript) and isinstance(n.value, ast.Name) and n.value.id in dicts:
+            out |= set(dicts[n.value.id])
+        elif isinstance(n, ast.Call) and isinstance(n.func, ast.Name) and depth > 0 \
+                and n.func.id in func.module.funcs and any(norm(x) == "lexer" for x in n.args) \
+                and not n.func.id.startswith("parse_"):
+            out |= tokens_tested(model, func.module.funcs[n.func.id], depth - 1)
+    return out
+
+
+def operator_natives(model, func):
+    """{token: native name} built by the operator loop of a precedence level.  For every path through the loop body:
+    the operator token consumed on it (matchIf(tok) taken, match(tok), or the facts tested on a local holding
+    lexer.next().value) and the native handed to func_call (a literal, a local bound to a literal, or TABLE[token]
+    for a module-level table).  None when the function has no single operator loop."""
+    from ..cfg import CFG
+    dicts, seqs = module_tables(func.module)
+    loops = [n for n in func.node.body if isinstance(n, ast.While)]
+    if len(loops) != 1:
+        return None
+    frag = ast.FunctionDef(name="_it", args=ast.arguments(posonlyargs=[], args=[], kwonlyargs=[], kw_defaults=[],
+                                                          defaults=[], vararg=None, kwarg=None),
+                           body=loops[0].body, decorator_list=[], returns=None, type_comment=None,
+                           lineno=1, col_offset=0)
+    if hasattr(ast, "TypeVar"):
+        frag.type_params = []
+    try:
+        g = CFG(frag, implicit_exc=False)
+        paths = g.paths(max_paths=4000)
+    except OverflowError:
+        return None
+    local_seqs = {}
+    for n in ast.walk(func.node):
+        if isinstance(n, ast.Assign) and len(n.targets) == 1 and isinstance(n.targets[0], ast.Name):
+            v = strings_of(n.value, seqs)
+            if v is not None:
+                local_seqs[n.targets[0].id] = v
+    out = {}
+
+    def put(tok, native):
+        if tok in out and out[tok] != native:
+            out[tok] = "<ambiguous>"
+        else:
+            out[tok] = native
+
+    def is_next_value(e):
+        return isinstance(e, ast.Attribute) and e.attr == "value" and isinstance(e.value, ast.Call) \
+            and norm(e.value.func) == "lexer.next"
+
+    for path in paths:
+        toks, consts, tokvars, facts, tabled = [], {}, set(), {}, {}
+        for node, label in path:
+            a = node.ast
+            if a is None:
+                continue
+            if node.kind == "test":
+                for t, pol in _conj(a, label == "true"):
+                    if isinstance(t, ast.Call) and norm(t.func) == "lexer.matchIf" and t.args \
+                            and isinstance(t.args[0], ast.Constant) and pol:
+                        toks.append(t.args[0].value)
+                    if isinstance(t, ast.Compare) and len(t.ops) == 1 and isinstance(t.left, ast.Name) \
+                            and t.left.id in tokvars and pol:
+                        new = None
+                        if isinstance(t.ops[0], ast.Eq) and isinstance(t.comparators[0], ast.Constant):
+                            new = {t.comparators[0].value}
+                        elif isinstance(t.ops[0], ast.In):
+                            ss = strings_of(t.comparators[0], seqs, local_seqs)
+                            new = set(ss) if ss is not None else None
+                        if new is not None:
+                            facts[t.left.id] = facts[t.left.id] & new if t.left.id in facts else new
+                continue
+            for x in ast.walk(a):
+                if isinstance(x, ast.Call) and norm(x.func) == "lexer.match" and x.args \
+                        and isinstance(x.args[0], ast.Constant):
+                    toks.append(x.args[0].value)
+            if isinstance(a, ast.Assign) and len(a.targets) == 1 and isinstance(a.targets[0], ast.Name):
+                v, val = a.targets[0].id, a.value
+                consts.pop(v, None)
+                tabled.pop(v, None)
+                if is_next_value(val):
+                    tokvars.add(v)
+                    facts.pop(v, None)
+                elif isinstance(val, ast.Constant) and v in tokvars:
+                    facts[v] = {val.value}        # relop = 'is not'
+                elif isinstance(val, ast.Constant):
+                    consts[v] = val.value
+                elif isinstance(val, ast.Subscript) and isinstance(val.value, ast.Name) and val.value.id in dicts:
+                    tabled[v] = (val.value.id, val.slice)
+            for x in ast.walk(a):
+                if not (isinstance(x, ast.Call) and norm(x.func) == "func_call" and x.args):
+                    continue
+                f0 = x.args[0]
+                if isinstance(f0, ast.Name) and f0.id in tabled:
+                    tbl, key = tabled[f0.id]
+                elif isinstance(f0, ast.Subscript) and isinstance(f0.value, ast.Name) and f0.value.id in dicts:
+                    tbl, key = f0.value.id, f0.slice
+                else:
+                    tbl = key = None
+                if tbl is not None:
+                    if isinstance(key, ast.Name) and key.id in tokvars:
+                        keys = facts.get(key.id, set(dicts[tbl]))
+                    elif is_next_value(key):
+                        keys = set(dicts[tbl])
+                    else:
+                        continue
+                    for k in keys:
+                        if k in dicts[tbl]:
+                            put(k, dicts[tbl][k])
+                    continue
+                native = f0.value if isinstance(f0, ast.Constant) else consts.get(f0.id) if isinstance(f0, ast.Name) else None
+                if native is None:
+                    continue
+                if len(toks) == 1:
+                    put(toks[0], native)
+                elif not toks:
+                    for v in tokvars:
+                        for k in facts.get(v, ()):
+                            put(k, native)
+    return out
+
+
+def _conj(test, pol):
+    """atomic (test, polarity) facts established by a branch outcome"""
+    if isinstance(test, ast.UnaryOp) and isinstance(test.op, ast.Not):
+        return _conj(test.operand, not pol)
+    if isinstance(test, ast.BoolOp):
+        if isinstance(test.op, ast.And) and pol or isinstance(test.op, ast.Or) and not pol:
+            out = []
+            for v in test.values:
+                out += _conj(v, pol)
+            return out
+        return []
+    return [(test, pol)]
+
+
+def native_registry(model, prop="*"):
+    """{native name: class name} as registered by functions.bind_native: the `if native == "lit": .. FuncX() ..` chain
+    and/or module-level tables {"lit": FuncX} / {"lit": lambda: FuncX()} that bind_native consults."""
+    functions = model.module(prop, "functions")
+    bn = model.func(prop, "functions", "bind_native")
+    reg = {}
+    param = bn.params[1] if len(bn.params) > 1 else "native"
+    for n in ast.walk(bn.node):
+        if isinstance(n, ast.If) and isinstance(n.test, ast.Compare) and len(n.test.ops) == 1 \
+                and isinstance(n.test.ops[0], ast.Eq) and norm(n.test.left) == param \
+                and isinstance(n.test.comparators[0], ast.Constant):
+            for st in n.body:
+                for c in ast.walk(st):
+                    if isinstance(c, ast.Call) and isinstance(c.func, ast.Name) and c.func.id.startswith("Func"):
+                        reg.setdefault(n.test.comparators[0].value, c.func.id)
+    used = {x.id for x in ast.walk(bn.node) if isinstance(x, ast.Name)}
+    for name, v in functions.globals_assigned.items():
+        if name not in used or not isinstance(v, ast.Dict):
+            continue
+        for k, x in zip(v.keys, v.values):
+            if not (isinstance(k, ast.Constant) and isinstance(k.value, str)):
+                continue
+            if isinstance(x, ast.Lambda):
+                x = x.body
+            if isinstance(x, ast.Call):
+                x = x.func
+            if isinstance(x, ast.Name) and x.id.startswith("Func"):
+                reg.setdefault(k.value, x.id)
+    return reg
